@@ -7,6 +7,7 @@ pub mod blb;
 pub mod chacha;
 pub mod groestl;
 pub mod jh;
+pub mod selftest;
 pub mod skein;
 pub mod threefish;
 
